@@ -120,7 +120,29 @@ type multiIdErr struct {
 func (e *multiIdErr) Error() string   { return fmt.Sprintf("verif report #%d", e.id) }
 func (e *multiIdErr) Unwrap() []error { return e.kids }
 
+// errors whose dynamic value is the zero value of its type (field-less sentinels, the library's own
+// NoSuchCellError{}): non-nil as errors, so recorded like any other.  idErr{0} is a third such value.
+type sentinelErrA struct{}
+type sentinelErrB struct{}
+
+func (sentinelErrA) Error() string { return "verif sentinel A" }
+func (sentinelErrB) Error() string { return "verif sentinel B" }
+
+const (
+	idSentinelA  = 900001
+	idSentinelB  = 900002
+	idNoSuchCell = 900003
+)
+
 func mkErr(id int) error {
+	switch id {
+	case idSentinelA:
+		return sentinelErrA{}
+	case idSentinelB:
+		return sentinelErrB{}
+	case idNoSuchCell:
+		return tabular.NoSuchCellError{}
+	}
 	switch id % 5 {
 	case 2:
 		return &ptrIdErr{id}
@@ -143,6 +165,14 @@ func errID(e error) int {
 		return v.id
 	case *multiIdErr:
 		return v.id
+	case sentinelErrA:
+		return idSentinelA
+	case sentinelErrB:
+		return idSentinelB
+	case tabular.NoSuchCellError:
+		if v == (tabular.NoSuchCellError{}) {
+			return idNoSuchCell
+		}
 	}
 	// an error the library wrapped with context (%w) still reports the one that was raised: all three shapes alike
 	var me *multiIdErr // first: its kids are idErr values, which the search below would otherwise find
@@ -223,9 +253,31 @@ type structKey struct {
 
 var ptrKeys = map[int]*int{}
 
+// keys of struct and array kind that hold a pointer: two of them with distinct pointers are distinct keys
+// although what the pointers point at is equal (== compares the pointers; reflect.DeepEqual would not)
+type keyPayload struct{ Name string }
+type ptrStructKey struct {
+	P *keyPayload
+	S string
+}
+
+var payloadKeys = map[int]*keyPayload{}
+
 // user key n: the harness maps n to a Go key so that distinct n are distinct
 // (dynamic type, value) pairs, deliberately colliding on value across types.
 func userKey(n int) interface{} {
+	if n%8 >= 6 {
+		p, ok := payloadKeys[n]
+		if !ok {
+			p = &keyPayload{"renderer"}
+			payloadKeys[n] = p
+		}
+		if n%8 == 6 {
+			return ptrStructKey{p, "width"}
+		}
+		return [1]*keyPayload{p}
+	}
+	n = n/8*6 + n%8 // the six older shapes keep their spacing
 	switch n % 6 {
 	case 0:
 		return fmt.Sprintf("k%d", n/6)
